@@ -81,6 +81,13 @@ type Script struct {
 	// Eager: every handshake acknowledgement (initial connections and reconnections) is followed at once by an unsolicited
 	// packet: 1 = in the same write, 2 = in a second write without a pause
 	Eager int `json:"eager"`
+	// CtxMode / CtxMs: the callers' own contexts. 1: every call has a deadline CtxMs after its start; 2: every call is cancelled
+	// CtxMs after its start; 3: by call number (n%3 = 1 deadline, 2 cancel, 0 neither). CtxMs is shorter than the client's timeout.
+	// Follow-up calls use plain contexts.
+	CtxMode int `json:"ctx_mode"`
+	CtxMs   int `json:"ctx_ms"`
+	// MustAnswer: calls that have to return an answer (the server answers them on a connection that stays alive)
+	MustAnswer []int `json:"must_answer"`
 }
 
 type callRes struct {
@@ -90,6 +97,7 @@ type callRes struct {
 	err      error
 	data     []byte
 	followup bool
+	limit    time.Duration // the client's timeout or the caller's own earlier deadline / cancellation
 }
 
 const (
@@ -151,15 +159,16 @@ func Drive(in string, index int, w *ev.Writer, seed int64, tracePath string) err
 	// ---------------------------------------------------------------- callers
 	var mu sync.Mutex
 	var results []callRes
-	inflight := map[int]time.Time{}
-	limit := timeout + time.Duration(slackMs())*time.Millisecond + time.Second
+	inflight := map[int]time.Time{} // call -> the moment from which it counts as outliving its own limit
+	limits := map[int]time.Duration{}
+	grace := time.Duration(slackMs())*time.Millisecond + time.Second
 	// outlived reports the calls that are still inside Request although deadline + slack (+1 s) has passed
 	outlived := func() []int {
 		mu.Lock()
 		defer mu.Unlock()
 		var late []int
 		for c, t0 := range inflight {
-			if time.Since(t0) > limit {
+			if time.Since(t0) > limits[c]+grace {
 				late = append(late, c)
 			}
 		}
@@ -168,12 +177,40 @@ func Drive(in string, index int, w *ev.Writer, seed int64, tracePath string) err
 	}
 	doCall := func(call int, followup bool) {
 		q := makeQ(call, uint32(splitmix(uint64(seed)^uint64(call))), sc.QBytes)
-		rec.emit(map[string]any{"k": "call", "i": call})
+		// the caller's own context: a deadline or a cancellation earlier than the client's timeout
+		mode, own := 0, timeout
+		if !followup && sc.CtxMode > 0 && sc.CtxMs > 0 && time.Duration(sc.CtxMs)*time.Millisecond < timeout {
+			mode = sc.CtxMode
+			if mode == 3 {
+				mode = call % 3
+			}
+			if mode != 0 {
+				own = time.Duration(sc.CtxMs) * time.Millisecond
+			}
+		}
+		cm := map[string]any{"k": "call", "i": call}
+		if mode != 0 {
+			cm["dl"] = sc.CtxMs
+		}
+		rec.emit(cm)
 		t0 := time.Now()
+		cctx := ctx
+		switch mode {
+		case 1:
+			var cancel context.CancelFunc
+			cctx, cancel = context.WithTimeout(ctx, own)
+			defer cancel()
+		case 2:
+			var cancel context.CancelFunc
+			cctx, cancel = context.WithCancel(ctx)
+			tm := time.AfterFunc(own, cancel)
+			defer tm.Stop()
+			defer cancel()
+		}
 		mu.Lock()
-		inflight[call] = t0
+		inflight[call], limits[call] = t0, own
 		mu.Unlock()
-		b, err := client.Request(ctx, q)
+		b, err := client.Request(cctx, q)
 		d := time.Since(t0)
 		mu.Lock()
 		delete(inflight, call)
@@ -186,7 +223,7 @@ func Drive(in string, index int, w *ev.Writer, seed int64, tracePath string) err
 		}
 		rec.emit(m)
 		mu.Lock()
-		results = append(results, callRes{call: call, start: t0, dur: d, err: err, data: b, followup: followup})
+		results = append(results, callRes{call: call, start: t0, dur: d, err: err, data: b, followup: followup, limit: own})
 		mu.Unlock()
 	}
 	var wg sync.WaitGroup
@@ -317,7 +354,7 @@ func Drive(in string, index int, w *ev.Writer, seed int64, tracePath string) err
 	slack := time.Duration(slackMs()) * time.Millisecond
 	sort.Slice(results, func(a, b int) bool { return results[a].call < results[b].call })
 	for _, r := range results {
-		if r.dur > timeout+slack {
+		if r.dur > r.limit+slack {
 			late = append(late, r.call)
 		}
 		if r.err != nil {
@@ -334,6 +371,15 @@ func Drive(in string, index int, w *ev.Writer, seed int64, tracePath string) err
 		}
 	}
 	res["answers"], res["errors"] = nAns, nErr
+	var unanswered []int
+	for _, c := range sc.MustAnswer {
+		for _, r := range results {
+			if r.call == c && r.err != nil {
+				unanswered = append(unanswered, c)
+			}
+		}
+	}
+	res["unanswered"] = ints(unanswered)
 	res["hang"] = hang != ""
 	res["hung_calls"] = ints(hung)
 	res["stream_corrupt"] = int(sv.nCorrupt.Load())
